@@ -3,3 +3,4 @@
 pub mod rng;
 pub mod out;
 pub mod c07;
+pub mod c08;
